@@ -31,6 +31,8 @@ func newExec(p *Program, mode string) *Exec {
 	}
 	ex.allocBases = map[int]bool{}
 	ex.discoverFresh = map[int]bool{}
+	ex.ownedForeign = map[int]*ownedObj{}
+	ex.sharedRefs = map[int]bool{}
 	if !ex.L.bv {
 		ex.allocBase = tb.Const("allocBase", SInt)
 		ex.allocBases[ex.allocBase.id] = true
@@ -60,7 +62,7 @@ func verifyFunc(p *Program, c *FuncContract) (res *FuncResult) {
 	defer func() {
 		if r := recover(); r != nil {
 			if se, ok := r.(specError); ok {
-				res.Err = fmt.Sprintf("contract error in %s: %s", c.Name, se.msg)
+				res.Err = fmt.Sprintf("contract error in %s (%s): %s", c.Name, res.Exec.curClause, se.msg)
 			} else {
 				res.Err = fmt.Sprintf("engine error in %s: %v\n%s", c.Name, r, debug.Stack())
 			}
